@@ -57,14 +57,17 @@ func gHP(h sk.HostPort) string {
 }
 
 func gPod(p sk.PodDump) string {
-	return fmt.Sprintf("(mkPod %s %s %s %s %s %s %s %s %s %s)", gs(p.Key),
+	return fmt.Sprintf("(mkPod %s %s %s %s %s %s %s %s %s %s %s %s %s)", gs(p.Key),
 		kit.GListOf(p.Sel, func(kv [2]string) string { return kit.GPair(gs(kv[0]), gs(kv[1])) }),
 		kit.GListOf(p.Req, gTerm),
 		kit.GListOf(p.Pref, func(w sk.WTerm) string { return kit.GPair(kit.GZ(int64(w.Weight)), gTerm(w.Term)) }),
 		kit.GListOf(p.PAff, func(w sk.WID) string { return kit.GPair(kit.GZ(int64(w.Weight)), gs(w.ID)) }),
 		kit.GListOf(p.PAnti, func(w sk.WID) string { return kit.GPair(kit.GZ(int64(w.Weight)), gs(w.ID)) }),
 		kit.GListOf(p.TSC, func(c sk.TSC) string { return kit.GPair(gs(c.ID), kit.GBool(c.Anyway)) }),
-		kit.GListOf(p.Tols, gTol), kit.GListOf(p.Ports, gHP), gRL(p.Requests))
+		kit.GListOf(p.Tols, gTol), kit.GListOf(p.Ports, gHP), gRL(p.Requests),
+		kit.GListOf(p.Vols, func(v [2]string) string { return kit.GPair(gs(v[0]), gs(v[1])) }),
+		kit.GListOf(p.VAlts, gReqs),
+		kit.GListOf(p.VolTerms, func(ts []sk.Term) string { return kit.GListOf(ts, gTerm) }))
 }
 
 func gIT(it sk.ITDump) string {
@@ -99,6 +102,10 @@ type groupDump struct {
 
 func gGroup(g groupDump) string {
 	return fmt.Sprintf("(mkDG %s %s %s)", gss(g.ITs), gRL(g.Overhead), gUsage(g.Usage))
+}
+
+func gLimits(l map[string]int64) string {
+	return kit.GListOf(kit.SortedKeys(l), func(k string) string { return kit.GPair(gs(k), kit.GZ(l[k])) })
 }
 
 func gPairs(kv [][2]string) string {
